@@ -339,6 +339,8 @@ def swnm_cases(out, rng, cfg, n, lines, reals):
         elif mode == "low-named-unreferenced":
             for i in range(rng.randrange(1, 6)):
                 named[i] = 2000 + i
+        if mode == "sparse" and rng.random() < 0.3:
+            named[0] = 2000
         swnm = RichSwnmSection(_switches=[RichSwitch(RichString("S%d" % named[i]) if i in named else RichNullString(), i) for i in range(256)])
         used = []
         for _ in range(rng.choice([0, 1, 2, 3, 5, 8])):
@@ -354,6 +356,9 @@ def swnm_cases(out, rng, cfg, n, lines, reals):
                 used.append(swnm.switches[i])
             else:
                 used.append(RichSwitch(RichNullString(), None))  # unnamed, index-less
+        if rng.random() < 0.4:
+            # switch numbers are 0-based: slot 0 is a slot like any other
+            used.insert(rng.randrange(len(used) + 1), swnm.switches[0])
         trig = RichTrigSection(_triggers=[RichTrigger(_conditions=[], _actions=[SetSwitchAction(_switch=s, _switch_action=SwitchAction.SET) for s in used], _players=set())])
         chk = RichChk(_chk_sections=[swnm, trig])
         seen = {}
